@@ -1503,7 +1503,8 @@ fn case_sort(r: &mut Rng, out: &mut Out, forced: Option<(Vec<Chunk>, Vec<SK>)>) 
 
 /// big inputs: row i = [((a * i) mod m) / g, i]; more than one output batch
 fn case_sort_big(r: &mut Rng, out: &mut Out) {
-    let ss = gen_specs(r, true);
+    // at most two chunks (the model sorts by insertion: quadratic)
+    let ss: Vec<Spec> = (0..(1 + r.below(2))).map(|_| { let n = *r.pick(&[2048usize, 2049, 2047, 100, 1]); Spec { n, sel: gen_big_sel(r, n) } }).collect();
     let (a, m) = (1237i64, 4100i64);
     let g = *r.pick(&[1i64, 7, 1000]);
     let keys = if r.chance(1, 2) { vec![SK { col: 0, desc: r.chance(1, 2), nulls_first: false }] } else { vec![SK { col: 0, desc: r.chance(1, 2), nulls_first: false }, SK { col: 1, desc: true, nulls_first: false }] };
@@ -2496,6 +2497,9 @@ fn corpus(r: &mut Rng, out: &mut Out) {
     case_agg2(r, out, Some((col(vec![V::Str("b".into()), V::Str("a".into()), V::Null]), vec![AF::Min, AF::Max], false, false)));
     case_agg2(r, out, Some((col(vec![V::Int(1), V::Int(2), V::Int(2), V::Null]), vec![AF::Avg, AF::First, AF::Last, AF::Collect], false, true)));
     case_agg2(r, out, Some((col(vec![V::Int(1), V::Str("a".into()), V::Bool(true), V::Int(3)]), vec![AF::Sum, AF::Avg, AF::Min, AF::Max], false, false)));
+    // K11: the second NULL pushed into a typed result vector reads back as 0.0 / 0
+    case_agg2(r, out, Some((vec![Chunk { rows: vec![vec![V::Int(1), V::Null], vec![V::Int(2), V::Null], vec![V::Int(3), V::Int(4)], vec![V::Int(5), V::Null]], sel: None }], vec![AF::Avg, AF::Min], true, true)));
+    case_agg2(r, out, Some((vec![Chunk { rows: vec![vec![V::Int(1), V::Null], vec![V::Int(2), V::Null]], sel: None }], vec![AF::Avg, AF::Max], true, false)));
     case_agg2(r, out, Some((vec![], vec![AF::Sum, AF::Avg, AF::Min, AF::Collect, AF::CountStar], false, true)));
     case_agg2(r, out, Some((vec![], vec![AF::Sum, AF::CountStar], true, true)));
     // Sort: ties keep the input order, NULLs last (first under DESC), two keys, more than one chunk
@@ -2572,6 +2576,19 @@ fn corpus(r: &mut Rng, out: &mut Out) {
         case_eng_sort(r, &gs, out, Some((2, true, true, None, Some(3), l)));
         case_eng_sort(r, &gs, out, Some((1, false, true, Some(1), None, l)));
     }
+    // K12: Cypher count(expr) counts NULLs (GQL does not); K11 at engine level: two groups without values
+    for l in [Lang::Gql, Lang::Cypher] {
+        case_eng_agg(r, &g, out, Some((AF::Count, 0, false, l)));
+        case_eng_agg(r, &g, out, Some((AF::Count, 0, true, l)));
+    }
+    let gn = build_graph(&mut Rng::new(13), Some(vec![
+        vec![None, None, Some(V::Null), Some(V::Int(1))], vec![None, None, None, Some(V::Int(2))],
+        vec![None, None, Some(V::Int(4)), Some(V::Int(3))], vec![None, None, Some(V::Null), Some(V::Int(4))],
+    ]));
+    for l in [Lang::Gql, Lang::Cypher] {
+        case_eng_agg(r, &gn, out, Some((AF::Avg, 2, true, l)));
+        case_eng_agg(r, &gn, out, Some((AF::Min, 2, true, l)));
+    }
     case_eng_lang(r, &g, out);
     case_eng_lang(r, &gs, out);
     for l in [Lang::Gremlin, Lang::GraphQl] {
@@ -2606,7 +2623,7 @@ fn main() {
             18 | 20 => case_agg2(&mut r, &mut out, None),
             19 => if i % 96 == 19 { case_agg_big(&mut r, &mut out) } else { case_filter(&mut r, &mut out, None) },
             21 | 22 => case_sort(&mut r, &mut out, None),
-            _ => if i % 96 == 23 { case_sort_big(&mut r, &mut out) } else if i % 96 == 47 { case_agg2_big(&mut r, &mut out) } else { case_sort(&mut r, &mut out, None) },
+            _ => if i % 192 == 23 { case_sort_big(&mut r, &mut out) } else if i % 96 == 47 { case_agg2_big(&mut r, &mut out) } else { case_sort(&mut r, &mut out, None) },
         }
     }
     // engine level: graphs with ~24 cases each
